@@ -17,7 +17,9 @@ RULE = ('Hypothesis **kern scores organised in measures (see C07) x EVERY range 
         'validator (kv/humdrum.py) accepts the excerpt; (2) kernpy.loads(excerpt) reports no errors; (3) an '
         'independent text-level signature tracker is run over the source and over the excerpt, the k-th note cell of '
         'the excerpt corresponds to the k-th note cell of the range (C07) and its governing (clef, key signature, time '
-        'signature, meter symbol) must be equal in both.  An evaluation is one (document, a, b); non-trivial when '
+        'signature, meter symbol) must be equal in both; (4) the eKern / bEkern excerpts are well-formed, carry the encoding\'s '
+        'header and re-import; (5) an Exporter object that has exported other documents before gives the same excerpt as '
+        'dumps.  An evaluation is one (document, a, b); non-trivial when '
         'a >= 2 (a preamble had to be reconstructed) and the range contains a note.')
 ASSUMPTIONS = ['kv/humdrum.py implements the Humdrum syntax rules named in the property (header first, cell count follows the '
                'spine operators, every spine terminated)', 'measure numbering as in C07',
@@ -35,6 +37,21 @@ PROFILES = {
 def cases(draw, prof):
     doc = draw(D.measure_documents(D.mprofile(**PROFILES[prof])))
     return {'doc': doc, 'prof': prof}
+
+
+_PRIMERS = []
+
+
+def primers():
+    """small three-spine scores whose first measure starts at stage 2, 3, ... 9: exported first through the Exporter object
+    that is then reused for the document under test (an Exporter must not remember another document)"""
+    if not _PRIMERS:
+        for k in range(0, 8):
+            rows = ['**kern\t**kern\t**kern'] + ['*clefG2\t*clefF4\t*clefC3'] * min(k, 1) + ['*MM%d\t*MM%d\t*MM%d' % (60 + i, 60 + i, 60 + i) for i in range(max(0, k - 1))]
+            rows += ['=1\t=1\t=1', '4c\t4d\t4e', '=2\t=2\t=2', '4f\t4g\t4a', '==\t==\t==', '*-\t*-\t*-']
+            d, _ = kp.loads('\n'.join(rows) + '\n')
+            _PRIMERS.append(d)
+    return _PRIMERS
 
 
 def check(case):
@@ -57,6 +74,10 @@ def check(case):
     nrows = len(doc['rows'])
     evals, keys = 0, []
     problems = []
+    reused = kp.Exporter()
+    for pd in primers():
+        for fm in (1, 2):
+            reused.export_string(pd, kp.ExportOptions(from_measure=fm, spine_types=['**kern']))
     for a in range(1, M + 1):
         for b in range(a, M + 1):
             evals += 1
@@ -69,6 +90,35 @@ def check(case):
                 problems.append(Bad('excerpt-raised', f'dumps(from_measure={a}, to_measure={b}) raised {type(e).__name__}: {e}\n{text}',
                                     exc=type(e).__name__, msg=str(e), **ctx))
                 continue
+            # the same range through an Exporter object that has exported other documents before
+            try:
+                okw = dict(kw)
+                via = reused.export_string(kdoc, kp.ExportOptions(from_measure=a, to_measure=b, **okw))
+            except Exception as e:  # noqa
+                via = f'raised {e!r}'
+            if via != ex:
+                problems.append(Bad('reused-exporter', f'range {a}..{b}: an Exporter object that exported other documents before gives a different excerpt\n--- dumps\n{ex}--- reused Exporter\n{via}', **ctx))
+                continue
+            # other encodings: still a well-formed document that re-imports, with the encoding's header
+            if (a + b) % 3 == 0:
+                for enc, pre in (('ekern', '**e'), ('bekern', '**be')):
+                    try:
+                        exe = kp.dumps(kdoc, from_measure=a, to_measure=b, encoding=K.ENCODINGS[enc], **kw)
+                    except Exception as e:  # noqa
+                        problems.append(Bad('excerpt-encoding-raised', f'{enc} excerpt {a}..{b} raised {e!r}', **ctx))
+                        break
+                    _, erre = H.track(exe)
+                    hdr = exe.split('\n')[0].split('\t')
+                    if erre or not all(h.startswith(pre) for h in hdr):
+                        problems.append(Bad('excerpt-encoding-malformed', f'{enc} excerpt {a}..{b}: {erre or "header " + repr(hdr)}\n{exe}', **ctx))
+                        break
+                    try:
+                        _, ee = kp.loads(exe)
+                    except Exception as e:  # noqa
+                        ee = [e]
+                    if ee:
+                        problems.append(Bad('excerpt-encoding-reimport', f'{enc} excerpt {a}..{b} does not re-import cleanly\n{exe}', **ctx))
+                        break
             got_notes, err = H.track(ex)
             if err:
                 exl = [l.split('\t') for l in ex.split('\n') if l]
@@ -172,7 +222,7 @@ FINDINGS = {'KF-C08-SPLIT': f_split, 'KF-C08-SIGKINDS': f_sigkinds, 'KF-C08-NONK
 
 
 def run(ctx):
-    n = 80 if ctx.quick else 800
+    n = 60 if ctx.quick else 800
     ctx.run_hypothesis(cases('core'), check, max_examples=n, label='core')
     for i, prof in enumerate(('sig-change', 'in-split', 'non-kern')):
         ctx.run_hypothesis(cases(prof), check, max_examples=max(30, n // 3), salt=i + 1, label=prof)
